@@ -126,6 +126,34 @@ static void sub_solve() {
 //---------------------------------------------------------------------------
 // pmis / coarsenings alone
 //---------------------------------------------------------------------------
+// Definition oracle for the distributed smoothed aggregation (scalar values, block size 1), in the spirit of the serial C04 one:
+// P = (I - omega D_F^-1 A_F) P_tent with omega = 2/3 (relax = 1, no spectral-radius estimate), A_F the filtered matrix: strong off-diagonal
+// entries kept, every weak off-diagonal entry -- wherever its column lives -- lumped into the diagonal.  Strength is evaluated from its
+// definition a_ij^2 > eps^2 a_ii a_jj on the assembled GLOBAL matrix; rows with an entry within rounding of the threshold are skipped.
+// Consequence checked on the way: on zero-row-sum rows of the unfiltered matrix the rows of P reproduce the constant (piecewise-constant P_tent).
+static void check_smoothed_prolongation(Case &c, const std::string &tag, const Csr<double> &A, const Csr<double> &Pt, const Csr<double> &P, double eps, bool constants) {
+    const long double u = 1.1102230246251565e-16L, omega = 2.0L / 3; long n = A.n; if ((long)Pt.n != n || (long)P.n != n || Pt.m != P.m) { c.check(false, "smoothed-prolongation:shape:" + tag, "P and P_tent do not have the same shape"); return; }
+    std::vector<double> dia(n, 0.0); for (long i = 0; i < n; ++i) for (auto j = A.ptr[i]; j < A.ptr[i + 1]; ++j) if (A.col[j] == i) dia[i] = A.val[j];
+    bool pat = true, val = true, ones = true; double worst = 0, worst1 = 0; long rows = 0, skipped = 0, weak_rows = 0, badrow = -1;
+    for (long i = 0; i < n; ++i) { bool amb = false, hasweak = false; long double dsum = dia[i], rowsum = 0; std::vector<std::pair<long, long double>> strong;
+        for (auto j = A.ptr[i]; j < A.ptr[i + 1]; ++j) { long cj = A.col[j]; rowsum += A.val[j]; if (cj == i) continue; long double lhs = (long double)eps * eps * dia[i] * dia[cj], rhs = (long double)A.val[j] * A.val[j];
+            if (rhs > lhs * (1 + 1e-9L)) strong.emplace_back(cj, A.val[j]); else if (rhs < lhs * (1 - 1e-9L)) { dsum += A.val[j]; hasweak = true; } else amb = true; }
+        if (amb || dsum == 0) { ++skipped; continue; } ++rows; if (hasweak) ++weak_rows;
+        struct T { long double v = 0, a = 0; long cnt = 0; }; std::map<long, T> ref;
+        auto add = [&](long row, long double coef) { for (auto q = Pt.ptr[row]; q < Pt.ptr[row + 1]; ++q) { T &t = ref[Pt.col[q]]; long double x = coef * Pt.val[q]; t.v += x; t.a += fabsl(x); t.cnt++; } };
+        add(i, 1 - omega); for (auto &sj : strong) add(sj.first, -omega * sj.second / dsum);
+        if ((size_t)(P.ptr[i + 1] - P.ptr[i]) != ref.size()) { pat = false; badrow = i; }
+        long double s1 = 0; for (auto q = P.ptr[i]; q < P.ptr[i + 1]; ++q) { s1 += P.val[q]; auto it = ref.find(P.col[q]); if (it == ref.end()) { pat = false; badrow = i; continue; }
+            long double d = fabsl((long double)P.val[q] - it->second.v), bound = 8.0L * (it->second.cnt + 8) * u * it->second.a; if (!(d <= bound)) { val = false; badrow = i; } if (it->second.a > 0) worst = std::max(worst, (double)(d / it->second.a)); }
+        // constants: row of A sums to zero (to rounding), the row and all its strong neighbours belong to aggregates => sum_c P_ic = 1
+        if (constants && fabsl(rowsum) <= 1e-13L * fabsl(dia[i]) && Pt.ptr[i + 1] > Pt.ptr[i]) { bool all = true; for (auto &sj : strong) if (Pt.ptr[sj.first + 1] == Pt.ptr[sj.first]) all = false;
+            if (all) { double e1 = (double)fabsl(s1 - 1); worst1 = std::max(worst1, e1); if (!(e1 <= 1e-12)) { ones = false; badrow = i; } } } }
+    c.check(pat, "smoothed-prolongation:pattern:" + tag, "pattern of the distributed smoothed prolongation differs from that of (I - w D_F^-1 A_F) P_tent", J().n("row", badrow));
+    c.check(val, "smoothed-prolongation:value:" + tag, "distributed smoothed prolongation differs from (I - w D_F^-1 A_F) P_tent evaluated on the global matrix (weak entries lumped into the diagonal wherever their column lives)", J().n("row", badrow).n("worst_rel", worst));
+    if (constants) c.check(ones, "smoothed-prolongation:constants-not-reproduced:" + tag, "rows of P do not sum to one on a zero-row-sum row", J().n("row", badrow).n("worst", worst1));
+    vf::obs_max("max_rel_smoothed_prolongation_discrepancy", worst); vf::obs_sum("smoothed_prolongation_rows_checked", (double)rows); vf::obs_sum("smoothed_prolongation_rows_with_weak_entries", (double)weak_rows); vf::obs_sum("smoothed_prolongation_rows_skipped_ambiguous", (double)skipped);
+}
+
 // Smallest aggregate (number of unknowns) that mpi::coarsening::pmis forms for (A, eps, block size) -- the aggregates do not depend on the
 // near-null-space vectors, so this is computed with none.  Collective.
 static long smallest_aggregate(const DM &A, double eps, int b, long cap) {
@@ -151,6 +179,11 @@ static void sub_pmis(const std::string &sub) {
         if (bk) { b = (int)r.range(2, 3); K = (int)r.range(1, 3); } else if (b > 1) K = 0;
         if (small) { b = 1; K = 3; }
         Problem p = make_problem(r, 40, idx % 4 == 0 ? 120 : 500);
+        // every fourth case: anisotropic 2-D grid whose weak direction (y, the slow index) is the one the contiguous row partition cuts,
+        // so that weak connections cross rank boundaries
+        bool aniso_case = !small && idx % 4 == 1;
+        if (aniso_case) { vf::GridSpec g; g.nx = (int)r.range(6, 20); g.ny = (int)r.range(std::max(4, w.size), 24); g.nz = 1; g.aniso = r.logu(0.01, 0.15); g.contrast = r.coin() ? 1.0 : r.logu(1.0, 3.0);
+            p.A = vf::grid_diffusion(g, r); validate_spd_mmatrix(p.A); p.family = "G1-5pt-anisotropic"; vf::obs_sum("pmis_anisotropic_cases"); }
         // isolate a few vertices (diagonal-only rows and columns)
         Csr<double> A0 = p.A; bool iso = r.coin(0.5); std::set<long> isolated;
         if (iso) { long cnt = r.range(1, std::max<long>(1, A0.n / 15)); for (long q = 0; q < cnt; ++q) isolated.insert(r.range(0, A0.n - 1));
@@ -207,7 +240,8 @@ static void sub_pmis(const std::string &sub) {
         for (int which = 0; which < 2 && !malformed; ++which) { auto sc = bag.with(10 + which); if (sc.size() != 2) { c.fail("harness:pmis-scalars", "missing"); continue; } long nc = (long)sc[0]->v[0]; double s = sc[1]->v[0]; std::string ct = std::string(COARS[which]) + ":alone:" + tag;
             GMat P = bag_to_csr(bag, 20 + which, n, nc), R = bag_to_csr(bag, 30 + which, nc, n), Ac = bag_to_csr(bag, 40 + which, nc, nc);
             c.check(P.dups + P.range + R.dups + R.range + Ac.dups + Ac.range == 0, "hierarchy:duplicate-or-out-of-range-entry:" + ct, "a gathered matrix has duplicate or out-of-range entries");
-            check_transpose(c, ct, P.M, R.M); check_galerkin(c, ct, G, P.M, R.M, Ac.M, s); }
+            check_transpose(c, ct, P.M, R.M); check_galerkin(c, ct, G, P.M, R.M, Ac.M, s);
+            if (which == 1 && b == 1 && gp.dups + gp.range == 0) check_smoothed_prolongation(c, tag, G, gp.M, P.M, eps, K == 0); }
         if (st.nonisolated) c.nontrivial(); vf::obs_sum("pmis_cases");
         vf::sample("pmis_r" + std::to_string(w.size), J().n("ranks", w.size).n("n", n).n("block_size", b).n("nullspace_cols", K).n("aggregates", st.aggregates).n("isolated_points", st.isolated).s("rows", vfm::part_str(rp)), 1);
     }
